@@ -38,6 +38,8 @@ RULE = ("generated MessageAttributes specs for every content kind the converter 
         "values by field kind (unicode text incl. astral and empty, bytes, uint32/uint64 incl. 0 and max, float32-representable "
         "floats, finite doubles, bools, enum members); context info with mentions and quoted messages nested to depth 3. The same "
         "specs are also materialised directly as protobuf (explicitly set defaults allowed) as 'payload received from a peer'. "
+        "In half of the entity-level cases the content is replaced in place by a second generated spec after the entity (or a deep "
+        "copy of it) has been serialised once, and the next serialisation must carry the second content. "
         "Non-trivial = at least 2 optional fields set, or nested context info, or a zero/empty value set explicitly. "
         "Distinct = distinct canonical JSON.")
 ASSUMPTIONS = [
@@ -504,6 +506,36 @@ def _entity_level(out, attrs, spec, case):
         out.fail("entity", "entity:meta_differs", {"to": [ent.getTo(), ent2.getTo()]})
     if mediatype and ent2.media_type != mediatype:
         out.fail("entity", "entity:mediatype_differs", {"got": ent2.media_type})
+    if out.violations or not case.get("edit"):
+        return
+    # composing in steps: the application changes the content after the entity has been serialised once (a first send, a log
+    # line, a forwarded copy) - the next serialisation carries what the sender set last
+    import copy
+    out.label("edited_after_first_serialisation")
+    try:
+        target = copy.deepcopy(ent) if case.get("edit_copy") else ent
+        a2 = build_message(case["edit"])
+        for name in MESSAGE_FIELDS:
+            setattr(target.message_attributes, name, getattr(a2, name))
+        got2 = extract_message(cls.fromProtocolTreeNode(target.toProtocolTreeNode()).message_attributes)
+        got1 = extract_message(cls.fromProtocolTreeNode(ent.toProtocolTreeNode()).message_attributes) if target is not ent else None
+    except Exception as e:
+        out.fail("entity", "entity:edit:raises:%s" % type(e).__name__, {"error": repr(e)[:300]})
+        return
+    problems = []
+    cmp_message(case["edit"], got2, "message", problems)
+    if problems:
+        out.fail("entity", "entity:edit_not_serialised:%s:%s" % (problems[0][1], problems[0][0]), {"path": problems[0][0], "copy": bool(case.get("edit_copy"))})
+        return
+    if got1 is not None:
+        problems = []
+        cmp_message(spec, got1, "message", problems)
+        if problems:
+            out.fail("entity", "entity:edit_of_copy_changed_original:%s" % problems[0][0], {"path": problems[0][0]})
+
+
+MESSAGE_FIELDS = ("conversation", "image", "contact", "location", "extended_text", "document", "audio", "video", "sticker",
+                  "sender_key_distribution_message", "protocol")
 
 
 def nontrivial(case, out):
@@ -628,6 +660,9 @@ def case_strategy(sub):
                 if draw(st.booleans()):
                     meta["participant"] = draw(_jid)
             case["meta"] = meta
+            if draw(st.booleans()):
+                case["edit"] = draw(message_strategy(0))
+                case["edit_copy"] = draw(st.booleans())
         return case
     return build()
 
@@ -655,8 +690,8 @@ def _enum_each_kind():
         {"sender_key_distribution_message": {"group_id": "1-2@g.us", "axolotl_sender_key_distribution_message": "33" * 10}},
         {"protocol": {"key": {"remote_jid": "49@s.whatsapp.net", "from_me": True, "id": "X", "participant": "p"}, "type": 0}},
     ]
-    for s in specs:
-        yield {"sub": "attrs", "spec": s, "meta": {"incoming": True}}
+    for i, s in enumerate(specs):
+        yield {"sub": "attrs", "spec": s, "meta": {"incoming": True}, "edit": specs[(i + 1) % len(specs)], "edit_copy": bool(i % 2)}
         yield {"sub": "peer", "spec": s}
 
 
